@@ -107,12 +107,7 @@ Inductive call :=
 | CRunnerRun (k : nat) (p : params)
 | CSetDefaults (d : params).
 
-Definition with_defaults_model (m : model) (d : params) : model :=
-  {| m_times := m_times m; m_comps := m_comps m; m_orig := m_orig m; m_infectious := m_infectious m;
-     m_flows := m_flows m; m_strats := m_strats m; m_mixcats := m_mixcats m; m_strains := m_strains m;
-     m_actions := m_actions m; m_initpop := m_initpop m; m_arraypop := m_arraypop m;
-     m_requests := m_requests m; m_whitelist := m_whitelist m; m_cvs := m_cvs m;
-     m_defaults := d; m_finalized := m_finalized m |}.
+Definition with_defaults_model (m : model) (d : params) : model := set_default_parameters m d.
 
 (* model.get_runner(parameters, dyn_params, solver=...) *)
 Definition get_runner (m : model) (p : params) (dyn : option (list string)) (s : solver) : result (model * runner) :=
